@@ -24,7 +24,7 @@ RULE = (
     "stop step k = 0..T of every history is saved, restored into a fresh optimizer and continued. Non-trivial = a crash point 0 < k < T whose "
     "continuation contains a refresh step. Distinct = canonical JSON of (history, k); evaluations counts histories, sub_evaluations crash points."
 )
-BOUNDS = "T <= 8 steps, <= 3 groups, <= 3 parameters per group, numel <= 120; roundtrip stream: serial layout, every crash point; ddp_layout stream: DTensor state on simulated DDP worlds (W <= 4), one generated crash point per world"
+BOUNDS = "T <= 8 steps, <= 3 groups, <= 3 parameters per group, numel <= 120; roundtrip stream: serial layout, every crash point; long_run: crash points 255-261 / 2047-2053 steps; ddp_layout stream: DTensor state on simulated DDP worlds (W <= 4), one generated crash point per world"
 ASSUMPTIONS = ["torch.save/torch.load round-trips tensors bit-exactly", "bitwise comparison through integer views (NaN-safe)"]
 NONTRIVIAL_FLOOR = 20
 
